@@ -260,6 +260,14 @@ def _get_object_shape_id(
     return uuidgen.uuid5(s_obj.TYPE_ID_NAMESPACE, string_id)
 
 
+def _get_compound_type_id(
+    op: CompoundOp,
+    components: list[uuid.UUID],
+) -> uuid.UUID:
+    string_id = f'compound\x00{int(op)}\x00{":".join(map(str, components))}'
+    return uuidgen.uuid5(s_obj.TYPE_ID_NAMESPACE, string_id)
+
+
 def _get_set_type_id(basetype_id: uuid.UUID) -> uuid.UUID:
     return uuidgen.uuid5(
         s_obj.TYPE_ID_NAMESPACE, 'set-of::' + str(basetype_id))
@@ -709,11 +717,6 @@ def _describe_compound_object_type(
         )
 
     buf = []
-    type_id = t.id
-
-    if type_id in ctx.uuid_to_pos:
-        # already described
-        return type_id
 
     components = t.get_union_of(ctx.schema).objects(ctx.schema)
     if components:
@@ -724,6 +727,18 @@ def _describe_compound_object_type(
             raise AssertionError(
                 f"{t.get_name(ctx.schema)} is not a compound type")
         op = CompoundOp.INTERSECTION
+
+    component_ids = [_describe_object_type(c, ctx=ctx) for c in components]
+
+    # Compound types are normally created on the fly while a query is
+    # compiled and get a new random id every time.  Derive the descriptor
+    # id from the operation and the components instead, so that the same
+    # query always yields the same descriptor bytes for the same id.
+    type_id = _get_compound_type_id(op, component_ids)
+
+    if type_id in ctx.uuid_to_pos:
+        # already described
+        return type_id
 
     # .tag
     buf.append(DescriptorTag.COMPOUND._value_)
@@ -736,10 +751,7 @@ def _describe_compound_object_type(
     # .op
     buf.append(_uint8_packer(op))
     # .components
-    buf.append(_type_ref_id_seq_packer(
-        [_describe_object_type(c, ctx=ctx) for c in components],
-        ctx=ctx,
-    ))
+    buf.append(_type_ref_id_seq_packer(component_ids, ctx=ctx))
 
     return _finish_typedesc(type_id, buf, ctx=ctx)
 
